@@ -82,7 +82,7 @@ fn invariant(real: u64, model: &BTreeSet<u8>, probes: &[u64]) -> Result<(), Stri
                 return Err(format!("is_valid: {} for {:?} (non-empty and no bit above the 52 card bits: {})", valid, model, exp_valid));
             }
             if let Some((p, exp)) = bad_probe {
-                return Err(format!("has({:#x}): expected {} (subset test) on {:?}", p, exp, model));
+                return Err(format!("has: has({:#x}) should be {} (subset test) on {:?}", p, exp, model));
             }
             Ok(())
         }
